@@ -31,7 +31,8 @@ RULE = ("corpus items = {C12 rules x 1..3 transformations (1:1 and 1:N field map
         "built-in validators, configs with removals, rules with several dangling names); direct FieldMappingTracking call sequences with "
         "merges; fixed regression sub-stream for the defects fixed in 0ce6c6c..12a37f8 and finding D39} x PYTHONHASHSEED x random.seed "
         "x one repeated process; distinct = distinct items; non-trivial = the item produced a query, an issue or an error record. "
-        "Model cases: tracking sequences, add_condition trees, filter trees, rendered messages vs the Lean model.")
+        "Model cases: tracking sequences, add_condition trees, filter trees, rendered messages vs the Lean model."
+        "; fixed regression inputs of every repaired determinism defect")
 ASSUMPTIONS = [
     "CPython's hash randomisation and the random module are exercised by sampling (PYTHONHASHSEED 0..3 quick / 0..23 thorough, as many random seeds, one repeated start); the Lean theorems quantify over all enumerations and all fresh names",
     "validators needing network data (MITRE ATT&CK / D3FEND tag validators) are excluded",
